@@ -50,6 +50,9 @@ const (
 type TestOpts struct {
 	Message *string        // z.Message
 	MsgFunc *string        // z.MessageFunc whose function sets exactly this text
+	// MsgFuncReads: the MessageFunc appends what it reads from the issue it is given (code, type, params, and the path when
+	// no IssuePath is set), so a formatter that is handed a half-initialised or foreign issue becomes visible
+	MsgFuncReads bool
 	Code    *string        // z.IssueCode
 	Path    *string        // z.IssuePath
 	Params  map[string]any // z.Params
@@ -170,6 +173,7 @@ type Test struct {
 	Pred     func(v any) bool // predicate over the node's VALUE (not pointer); must be deterministic
 	PredName string
 	ViaTest  bool // added with schema.Test(z.TestFunc(code, fn, opts...)) instead of schema.TestFunc(fn, opts...)
+	Patch    bool // with ViaTest: the reusable test is created without options and its exported fields are set afterwards (t.IssueCode = ...)
 }
 
 // EffCode is the code the issue of this test must carry.
@@ -452,4 +456,22 @@ func (t *Test) BuiltinParams() map[string]any {
 		return map[string]any{"before": t.Arg}
 	}
 	return nil
+}
+
+// ComposeMsg is the message a reading MessageFunc produces.
+func ComposeMsg(text, code, dtype string, params map[string]any, path *string) string {
+	keys := make([]string, 0, len(params))
+	for k := range params {
+		keys = append(keys, k)
+	}
+	sort.Strings(keys)
+	var sb strings.Builder
+	fmt.Fprintf(&sb, "%s|code=%s|type=%s|params=", text, code, dtype)
+	for _, k := range keys {
+		fmt.Fprintf(&sb, "%s:%v,", k, params[k])
+	}
+	if path != nil {
+		fmt.Fprintf(&sb, "|path=%s", *path)
+	}
+	return sb.String()
 }
